@@ -27,7 +27,7 @@
 EXTENDS Naturals, Sequences, FiniteSets, TLC, Json
 
 CONSTANTS N,            \* instances are 1..N
-          Vals,         \* values written by ParsePresent / MutateNested (strings, # D0)
+          NVals,        \* number of values written by ParsePresent / MutateNested ("v1", "v2", ..; # D0)
           Ops,          \* enabled API calls (data types have no mk_copy / update_from_other_container)
           MaxOps,       \* bound on the history length (tree enumeration only)
           ShareAbsent,  \* defect switch: ParseAbsent hands out the default cell itself
@@ -42,6 +42,9 @@ vars == <<live, ref, heap, hist>>
 view == <<live, ref, heap>>
 
 Inst == 1..N
+\* the written values are interchangeable: emitted histories use them in this order of first appearance
+ValOrder == [k \in 1..NVals |-> "v" \o ToString(k)]
+Vals == {ValOrder[k] : k \in 1..NVals}
 Dflt == 0                      \* the cell of the class level default
 Cells == Inst \cup {Dflt}      \* cell i is the private cell of instance i
 D0 == "D0"                     \* value of the class default
@@ -135,8 +138,34 @@ Isolated ==
 \* ... and never the value of instances created later
 DefaultUntouched == [][heap'[Dflt] = heap[Dflt]]_view
 
+\* ---- what an API call shows to the application -------------------------------
+\* (the relations recorded executions of the real classes are judged with, DefaultsTrace.tla;
+\*  ObsSound lets TLC prove that the heap actions above imply them)
+\* The statement does not fix WHICH value a member has that was absent in the XML, only that it is
+\* private: besides the default value the tokens "None" (member is None) and "A0" (a value of its own,
+\* e.g. the empty list where the constructor sets None) are accepted.
+AbsentVals == {"None", "A0"}
+ObsCreate(i, v) == i \notin live /\ live' = live \cup {i} /\ Val(i)' = v
+ObsNew(i) == ObsCreate(i, FreshValue)
+ObsParseAbsent(i) == i \notin live /\ live' = live \cup {i} /\ Val(i)' \in {FreshValue} \cup AbsentVals
+ObsParsePresent(i, v) == ObsCreate(i, v)
+ObsCopy(s, i) == s \in live /\ ObsCreate(i, Val(s))
+ObsUpdateFrom(s, t) == s \in live /\ t \in live /\ live' = live /\ Val(t)' = Val(s)
+ObsMutate(i, v) == i \in live /\ live' = live /\ Val(i)' = v
+ObsDrop(i) == i \in live /\ live' = live \ {i}
+ObsSound ==
+  [][/\ \A i \in Inst : /\ NewCore(i) => ObsNew(i)
+                        /\ ParseAbsentCore(i) => ObsParseAbsent(i)
+                        /\ DropCore(i) => ObsDrop(i)
+     /\ \A i \in Inst, v \in Vals : /\ ParsePresentCore(i, v) => ObsParsePresent(i, v)
+                                   /\ MutateNestedCore(i, v) => ObsMutate(i, v)
+     /\ \A s, i \in Inst : /\ (DeepCopyCore(s, i) \/ MkCopyCore(s, i)) => ObsCopy(s, i)
+                           /\ UpdateFromCore(s, i) => ObsUpdateFrom(s, i)]_view
+
 \* ---- behaviour emission (tree of all histories of exactly MaxOps calls) -------
 Bounded == Len(hist) <= MaxOps + 1
+UsedVals == {hist[k].v : k \in {n \in 1..Len(hist) : "v" \in DOMAIN hist[n]}}
+CanonHist == \A k \in 2..Len(ValOrder) : ValOrder[k] \in UsedVals => ValOrder[k - 1] \in UsedVals
 EmitAt(d) == (Len(hist) = d) => PrintT(<<"BEH", ToJson(hist)>>)
-EmitLeaf == Bounded /\ EmitAt(MaxOps + 1)
+EmitLeaf == Bounded /\ CanonHist /\ EmitAt(MaxOps + 1)
 =============================================================================
